@@ -42,6 +42,10 @@ def make_cases(seed: int, tier: str, n_cases: int | None = None) -> list[dict]:
         # ... and also: repeated in ONE process - the process has analysed the same paths before, when the files held
         # other contents (library use, long-running callers); what it produces now must be what a fresh process produces
         histories.append([{"sigma": {}, "prelude_edit": True, "dims": ["inproc_reanalysis"]}])
+        # ... and library use: the function behind the command line, called with relative paths as they are spelled
+        rl = rng(cs, "library")
+        histories.append([{"sigma": {"cwd": rl.choice(["proj", "work", "S", "elsewhere"]), "src_spelling": rl.choice(["rel", "reltrail", "abs"]),
+                                     "out_spelling": rl.choice(["rel", "reltrail", "abs"])}, "library_entry": True, "dims": ["library_entry", "cwd", "src_spelling", "out_spelling"]}])
         cases.append({"index": idx, "case_seed": cs, "verif_seed": seed, "pkg": pkg, "options": options, "histories": histories})
     return cases
 
